@@ -133,9 +133,24 @@ def load_families():
     F['error-late'] = lambda n: '- a\n' * n + '- [\n'
     F['plain-colon-words'] = lambda n: 'a:b ' * n
     F['hash-words'] = lambda n: 'a#b ' * n
+    F['alias-square'] = lambda n: '- &a [' + '1, ' * n + '2]\n' + '- *a\n' * n
+    F['alias-map-square'] = lambda n: 'base: &a {' + ''.join('k%d: 1, ' % i for i in range(n)) + 'z: 0}\n' + ''.join('r%d: *a\n' % i for i in range(n))
     F['keyword-like-words'] = lambda n: '- yellow\n- name\n- title\n- fine\n- other\n- 1x\n- .x\n- ~x\n- =x\n- <x\n' * (n // 10)
     F['keyword-like-keys'] = lambda n: ''.join('yellow%d: name\n' % i for i in range(n))
     return F
+
+
+def unsafe_families():
+    U_ = {}
+    U_['ordereddict-shared-values'] = lambda n: '!!python/object/apply:collections.OrderedDict\n- - [k, &a [' + '1, ' * n + '2]]\n' + ''.join('  - [k%d, *a]\n' % i for i in range(n))
+    U_['apply-args-alias-square'] = lambda n: '- &a [' + '1, ' * n + '2]\n' + '- !!python/object/apply:vf_shapes.make_factory [*a, 1]\n' * (n // 4)
+    U_['setstate-shared'] = lambda n: '!!python/object:vf_shapes.StateDict\nA: &a [' + '1, ' * n + '2]\nB: [' + '*a, ' * n + '0]\n'
+    U_['object-list'] = lambda n: '- !!python/object:vf_shapes.Plain {a: 1, b: [2]}\n' * n
+    U_['tuple-list'] = lambda n: '- !!python/tuple [1, 2]\n' * n
+    U_['new-args'] = lambda n: '- !!python/object/new:vf_shapes.NewArgs [1, 2]\n' * n
+    U_['name-list'] = lambda n: "- !!python/name:len ''\n" * n
+    U_['deep-state-aliases'] = lambda n: '!!python/object/new:vf_shapes.StateTuple\nstate: !!python/tuple\n- &a [' + '1, ' * n + '2]\n- [' + '*a, ' * n + '0]\n'
+    return U_
 
 
 def dump_values():
@@ -170,6 +185,12 @@ def dump_values():
     V['long-keys'] = lambda n: {'k' * 200 + str(i): 1 for i in range(n // 20)}
     V['complex-keys'] = lambda n: {(i, i): 1 for i in range(n)} if False else {'a\nb%d' % i: 1 for i in range(n)}
     V['none-bools'] = lambda n: [None, True, False] * (n // 3)
+    # one shared container that itself grows, referenced n times: linear with anchors/aliases, quadratic if sharing is lost
+    # (str / bytes are never aliased in YAML output and a merge copies entries: those products are legitimately quadratic)
+    V['shared-tuple-square'] = lambda n: (lambda t: [t] * n)(tuple(range(n)))
+    V['shared-list-square'] = lambda n: (lambda t: [t] * n)(list(range(n)))
+    V['shared-dict-square'] = lambda n: (lambda t: {'k%d' % i: t for i in range(n)})({i: i for i in range(n)})
+    V['shared-date'] = lambda n: (lambda t: [t] * n)(datetime.date(2001, 1, 1))
     V['keyword-like-strs'] = lambda n: ['yellow', 'name', 'title', 'fine', 'other', '1x', '.x', '~x'] * (n // 8)
     return V
 
@@ -214,6 +235,8 @@ def plan(tier, seed):
     q = tier == 'quick'
     jobs = [('load', name) for name in load_families()]
     jobs += [('loadwild', name) for name in ('block-seq', 'plain-words', 'flow-seq', 'block-map', 'seq-of-maps', 'keyword-like-words', 'keyword-like-keys', 'ints', 'bools-nulls')]
+    jobs += [('loadunsafe', name) for name in unsafe_families()]
+    jobs += [('dumpfull', name) for name in ('shared-tuple-square', 'shared-list-square', 'list-small-lists', 'shared-many', 'dict-keys')]
     jobs += [('dump', name) for name in dump_values()]
     jobs += [('dumpwild', name) for name in ('list-distinct-strs', 'dict-keys', 'list-strs', 'keyword-like-strs', 'list-ints')]
     units = list(gen_units(CORE))
@@ -235,6 +258,15 @@ def run_job(job, T):
         f = load_families()[job[1]]
         measure(T, 'load', 'load-wildcard-resolver:' + job[1], lambda n: _load(f(n), WildLoader))
         T.sample('load', {'family': 'wildcard-resolver:' + job[1]})
+    elif kind == 'loadunsafe':
+        import vf_shapes
+        f = unsafe_families()[job[1]]
+        measure(T, 'load', 'unsafe_load:' + job[1], lambda n: _load(f(n), yaml.UnsafeLoader))
+        T.sample('load', {'family': 'unsafe:' + job[1], 'text_at_n=2': f(2)})
+    elif kind == 'dumpfull':
+        v = dump_values()[job[1]]
+        measure(T, 'dump', 'dump-full-dumper:' + job[1], lambda n: (lambda val=v(n): yaml.dump(val, Dumper=yaml.Dumper)))
+        T.sample('dump', {'family': 'full-dumper:' + job[1]})
     elif kind == 'dump':
         v = dump_values()[job[1]]
         for on, o in DUMP_OPTS:
@@ -285,6 +317,13 @@ def replay(sub, case, T):
     elif name.startswith('dump-wildcard-resolver:'):
         v = dump_values()[name.split(':', 1)[1]]
         measure(T, sub, name, lambda n: (lambda val=v(n): yaml.dump(val, Dumper=WildDumper)))
+    elif name.startswith('unsafe_load:'):
+        import vf_shapes
+        f = unsafe_families()[name.split(':', 1)[1]]
+        measure(T, sub, name, lambda n: _load(f(n), yaml.UnsafeLoader))
+    elif name.startswith('dump-full-dumper:'):
+        v = dump_values()[name.split(':', 1)[1]]
+        measure(T, sub, name, lambda n: (lambda val=v(n): yaml.dump(val, Dumper=yaml.Dumper)))
     elif name.startswith('dump_all:'):
         v = dump_values()[name[9:]]
         measure(T, sub, name, lambda n: (lambda val=[v(4)] * n: yaml.safe_dump_all(val)))
